@@ -174,7 +174,7 @@ def rule_views(ctx, rule="C17-deleg"):
     F = ctx.F
     # the views themselves
     for fn, want in (("LeanString::as_str", "repr::Repr::as_str(p1.0)"), ("LeanString::as_bytes", "repr::Repr::as_bytes(p1.0)"), ("LeanString::len", "repr::Repr::len(p1.0)"),
-                     ("LeanString::is_empty", "repr::Repr::is_empty(p1.0)"), ("repr::Repr::as_str", "core::str::converts::from_utf8_unchecked(repr::Repr::as_bytes(p1))")):
+                     ("LeanString::is_empty", "repr::Repr::is_empty(p1.0)"), ("LeanString::capacity", "repr::Repr::capacity(p1.0)"), ("repr::Repr::as_str", "core::str::converts::from_utf8_unchecked(repr::Repr::as_bytes(p1))")):
         b = F.bodies.get(fn)
         ctx.need(rule, fn, "anchor", b is not None, "%s not found" % fn)
         if b:
@@ -204,6 +204,21 @@ def mapped_result(b, ds, X, err_pat=None):
     err_pat, an error built as err_pat) otherwise — as a combinator chain, a match, or `?`.
     X is a regex for the describe() of the fallible call."""
     F = b.facts
+    if len(ds) == 1 and ds[0].startswith("phi(") and ds[0].endswith(")"):
+        # the two exits, seen through a private helper the body forwards to: split at top level
+        inner, parts, depth, cur = ds[0][4:-1], [], 0, ""
+        for ch in inner:
+            if ch in "({<[":
+                depth += 1
+            elif ch in ")}>]":
+                depth -= 1
+            if ch == "," and depth == 0:
+                parts.append(cur.strip())
+                cur = ""
+            else:
+                cur += ch
+        parts.append(cur.strip())
+        ds = parts
     if len(ds) == 1:
         d = ds[0]
         if err_pat is None and re.match(r"^core::result::Result::<T, E>::map\(%s, %s\)$" % (X, FROMFN), d):
